@@ -75,7 +75,7 @@ def digest_dump(m, n):
 
 def mutants(ids):
     failed = 0
-    for d in sorted(glob.glob(os.path.join(ROOT, "seeded", "*"))):
+    for d in sorted(glob.glob(os.path.join(ROOT, "seeded", "[!_]*"))):
         name = os.path.basename(d)
         if ids and name not in ids:
             continue
@@ -84,7 +84,8 @@ def mutants(ids):
         try:
             dst = os.path.join(tmp, "repo")
             shutil.copytree("/repo", dst, ignore=shutil.ignore_patterns(".git", "__pycache__", ".benchmarks"))
-            p = subprocess.run(["patch", "-p1", "-s", "-i", os.path.join(d, "patch.diff")], cwd=dst,
+            subprocess.run(["git", "init", "-q", "."], cwd=dst, capture_output=True)
+            p = subprocess.run(["git", "apply", "--whitespace=nowarn", os.path.join(d, "patch.diff")], cwd=dst,
                                capture_output=True, text=True)
             if p.returncode != 0:
                 print(f"{name}: patch does not apply: {p.stdout} {p.stderr}")
